@@ -30,8 +30,8 @@ MANIFEST = {
 }
 GEN = ["OptDev"]
 RULE = ("cases = EDFA calls on random optical fields (N in {1,2,3,5,8,16,33,64,257}, 1/2 pol, incoming noise none/random/zero-sum/zero, "
-        "dtype complex/float/int) x G_dB in [0,40] (incl. 0 and 40) x NF_dB in [3,10] x gv(sps,R,wavelength) set explicitly x numpy seed; "
-        "plus BW cases (BW partly from a small fixed set so that it recurs under different sampling rates; reference = Bessel filter designed afresh by scipy for the rate in force), BW histories (one BW under 2-3 sampling rates in sequence and back, within one process), non-optical inputs (ndarray, electrical_signal, list, scalar, None, binary_sequence) and "
+        "dtype complex/float/int/mixed = real-dtype signal with complex-dtype noise attached after construction) x G_dB in [0,40] (incl. 0 and 40) x NF_dB in [3,10] x gv(sps,R,wavelength) set explicitly x numpy seed; "
+        "plus chains of two amplifiers (second stage fed with the first stage's output object, draws of both spied), BW cases (BW partly from a small fixed set so that it recurs under different sampling rates; reference = Bessel filter designed afresh by scipy for the rate in force), BW histories (one BW under 2-3 sampling rates in sequence and back, within one process), non-optical inputs (ndarray, electrical_signal, list, scalar, None, binary_sequence) and "
         "ASE soaks of 2^16..2^18 samples. non-trivial = accepted call with N>=2, non-zero field; distinct by (n_pol, noise kind, dtype, N, G, NF, gv)")
 PARTIAL = [
     "sample ASE power = P_ase, zero mean, equal variance P_ase/4 of the four real components and their mutual independence: "
@@ -75,12 +75,23 @@ def gen_cases(rng, tier):
         n = rng.choice(lens)
         npol = rng.choice([1, 2])
         nk = rng.choice(["none", "none", "random", "random", "zerosum", "zero"])
-        dt = rng.choice(["complex", "complex", "complex", "float", "int"])
+        dt = rng.choice(["complex", "complex", "complex", "float", "int", "mixed"])
+        if dt == "mixed" and nk in ("none", "zero"):
+            nk = "random"                 # real-dtype signal with a genuinely complex noise part
         sc = rng.choice([1.0, 1e-3, 1e-2, 30.0])
         G, NF = _gnf(rng)
         dark = rng.choice([0, 1]) if (npol == 2 and rng.random() < 0.2) else None      # x-only / y-only field, noise on both rows
         cases.append({"kind": "edfa", "field": F.gen_field(rng, n, npol, nk, dt, sc, dark), "G": G, "NF": NF, "BW": None,
                       "gv": _gvspec(rng), "np_seed": rng.randrange(1 << 31)})
+    # chains of two amplifiers: the second one receives what the first returned (for a real-dtype field: real .signal, complex .noise)
+    for _ in range(30 if tier == "quick" else 400):
+        n = rng.choice(lens)
+        dt = rng.choice(["float", "float", "int", "complex", "mixed"])
+        nk = rng.choice(["none", "random", "zerosum"]) if dt != "mixed" else "random"
+        G, NF = _gnf(rng)
+        G2, NF2 = _gnf(rng)
+        cases.append({"kind": "edfa", "field": F.gen_field(rng, n, rng.choice([1, 2]), nk, dt, rng.choice([1.0, 1e-3])), "G": G, "NF": NF,
+                      "BW": None, "stage2": {"G": G2, "NF": NF2}, "gv": _gvspec(rng), "np_seed": rng.randrange(1 << 31)})
     for _ in range(30 if tier == "quick" else 300):
         n = rng.choice([16, 17, 33, 64, 128, 257, 8, 15])       # 4th-order Bessel: padding 15 -> rows of <= 15 samples are rejected
         g = _gvspec(rng)
@@ -269,6 +280,30 @@ def run_impl(case):
                 yf, err = _call(BPF, y, case["BW"])
                 res["bpf"] = err if err else {"status": "ok", **F.dump_signal(yf)}
                 res["ref"] = _fresh_bpf(y, case["BW"], res["fs"])
+            if case.get("stage2"):
+                g2 = case["stage2"]
+                rec2 = []
+
+                def spy2(*shape):
+                    v = orig(*shape)
+                    rec2.append(v)
+                    return v
+                st = {"status": "ok", "h": res["h"], "f0": res["f0"], "fs": res["fs"], "input": F.dump_signal(y),
+                      "in_dtypes": [str(np.asarray(y.signal).dtype), None if y.noise is None else str(np.asarray(y.noise).dtype)]}
+                np.random.seed(case["np_seed"] + 1)
+                np.random.randn = spy2
+                y2, err = _call(EDFA, y, g2["G"], g2["NF"])
+                np.random.randn = orig
+                st["calls"] = [{"shape": [int(k) for k in v.shape]} for v in rec2]
+                st["main"] = err if err else {"status": "ok", **F.dump_signal(y2)}
+                if not err:
+                    if len(rec2) == 1 and rec2[0].shape == (4, case["field"]["n"]):
+                        st["draw"] = [[float(v) for v in row] for row in rec2[0]]
+                    xt2 = optical_signal(np.asarray(y.signal).copy(), None, n_pol=2)
+                    np.random.seed(case["np_seed"] + 1)
+                    t2, err = _call(EDFA, xt2, g2["G"], g2["NF"])
+                    st["twin"] = err if err else {"status": "ok", **F.dump_signal(t2)}
+                res["stage2"] = st
             after = F.dump_signal(x)
             if case["field"]["dtype"] == "complex" and (after["sig"] != case["field"]["sig"] or after["noise"] != case["field"]["noise"]):
                 res["input_modified"] = True
@@ -302,9 +337,26 @@ def _secs(p):
     return f"{p['edge']} " + " ".join(secs)
 
 
+def _stage2(case, res):
+    """the second amplifier of a chain as a case of its own: (case2, res2) or None"""
+    st = res.get("stage2")
+    if not case.get("stage2") or not st or (res.get("main") or {}).get("status") != "ok":
+        return None
+    inp = st["input"]
+    fld = {"npol": 2, "n": case["field"]["n"], "dtype": "/".join(str(d) for d in st["in_dtypes"]), "noise_kind": "stage-1 output",
+           "dark": None, "sig": inp["sig"], "noise": inp["noise"]}
+    case2 = {"kind": "edfa", "field": fld, "G": case["stage2"]["G"], "NF": case["stage2"]["NF"], "BW": None, "gv": case["gv"],
+             "np_seed": case["np_seed"] + 1}
+    return case2, st
+
+
 def model_requests(case, res):
     if res.get("status") != "ok" or "main" not in res:
         return []
+    s2 = _stage2(case, res)
+    if s2 is not None:
+        first = model_requests(dict(case, stage2=None), res)
+        return first + model_requests(*s2)
     if case["kind"] == "edfa_hist":
         reqs = []
         for st in res.get("steps", []):
@@ -356,6 +408,11 @@ def _compare_bw(case, res, rep):
 
 
 def compare(case, res, reqs, replies):
+    s2 = _stage2(case, res)
+    if s2 is not None:
+        k = len(model_requests(dict(case, stage2=None), res))
+        return compare(dict(case, stage2=None), res, reqs[:k], replies[:k]) + \
+            ["second amplifier of the chain (input dtypes " + s2[0]["field"]["dtype"] + "): " + d for d in compare(s2[0], s2[1], reqs[k:], replies[k:])]
     if case["kind"] == "edfa_hist":
         out, pos = [], 0
         for st in res.get("steps", []):
@@ -456,6 +513,12 @@ def oracle(case, res):
     v = []
     if res.get("status") != "ok":
         return [("C10:harness", f"could not build the inputs: {res.get('detail')}")]
+    s2 = _stage2(case, res)
+    if s2 is not None:
+        # the statement applied to the second amplifier of the chain, whose input is what the first one returned
+        v += [(sig + ":chain", f"second amplifier of a chain (its input = output of the first, dtypes signal/noise {s2[0]['field']['dtype']}): " + msg)
+              for sig, msg in oracle(*s2)]
+        return oracle(dict(case, stage2=None), res) + v
     m = res["main"]
     if m["status"] == "timeout":
         return [("C10:timeout", "EDFA did not return")]
@@ -583,6 +646,8 @@ def features(case, res):
             f.append("dark-pol" + ("+noise" if fl["noise"] is not None else ""))
     f.append("G=" + ("0" if case["G"] == 0 else "40" if case["G"] == 40 else "mid"))
     f.append(f"sps={case['gv']['sps']}")
+    if case.get("stage2"):
+        f.append("chain2:" + str(((res.get("stage2") or {}).get("main") or {}).get("status")) + ":" + "/".join(str(d) for d in (res.get("stage2") or {}).get("in_dtypes", [])))
     if case["BW"] is not None:
         f.append("BW:" + str((res.get("bw") or {}).get("status")) + (":model" if res.get("fparams") else ""))
     if res.get("input_modified"):
@@ -603,4 +668,5 @@ def nontrivial_key(case, res):
         return None
     g = case["gv"]
     return (case["kind"], fl["npol"], fl["noise_kind"], fl["dtype"], fl["n"], case["G"], case["NF"], g["sps"], g["R"], g["wavelength"],
-            case.get("BW"), tuple((q["sps"], q["R"]) for q in case.get("seq", [])))
+            case.get("BW"), tuple((q["sps"], q["R"]) for q in case.get("seq", [])),
+            None if not case.get("stage2") else (case["stage2"]["G"], case["stage2"]["NF"]))
